@@ -56,6 +56,29 @@ def build(s, kind, base=0):
     return eg.to_nx(code, HATTR if kind == "h" else VATTR, EATTR, node_ids=list(range(base + 1, base + n + 1)))
 
 
+def sparse_pairs(a, b):
+    """the pair as built (no atom_map / hcount keys), with the defaults written out on one side, on every other atom, and
+    'order' left out on the single bonds of one side"""
+    def written(g, which):
+        h = g.copy()
+        for k, v in enumerate(sorted(h.nodes)):
+            if which(k):
+                h.nodes[v].update(atom_map=0, hcount=0)
+        return h
+
+    def no_single(g):
+        h = g.copy()
+        for u, v in h.edges:
+            if h[u][v].get("order") == 1.0:
+                del h[u][v]["order"]
+        return h
+
+    yield "as_built", (a, b)
+    yield "defaults_written_left", (written(a, lambda k: True), b)
+    yield "defaults_written_alternating", (written(a, lambda k: k % 2 == 0), written(b, lambda k: k % 2 == 1))
+    yield "single_order_omitted_right", (a, no_single(b))
+
+
 def node_ok_h(p, h):
     return p["element"] == h["element"] and p["charge"] == h["charge"] and h.get("hcount", 0) >= p.get("hcount", 0)
 
@@ -158,6 +181,15 @@ def check(case):
         ncalls += 1
         if (m is not None) != iso_ab or (m is not None and not valid_embedding(m, a, b, node_eq)):
             fails.append(Fail("find_graph_isomorphism", str(m), f"mapping iff {iso_ab}"))
+        # default matchers (element, atom_map, hcount with defaults '*', 0, 0; order with default 1): the verdict may not depend on
+        # the cheap invariant pre-check, nor on whether a default-valued attribute is written out or left out
+        want_def = rm.isomorphic(a, b, lambda x, y: x["element"] == y["element"], edge_ok)
+        for sname, (a2, b2) in sparse_pairs(a, b):
+            for fic in (True, False):
+                m = gmor.find_graph_isomorphism(a2, b2, fast_invariant_check=fic)
+                ncalls += 1
+                if (m is not None) != want_def:
+                    fails.append(Fail("default_matcher", f"{sname} fast_invariant_check={fic}: {m}", f"mapping iff {want_def}", key_extra=f"{sname},{fic}"))
     contained_any = nontriv_any
     for pat, host, tag in ((a, b, "a_in_b"), (b, a, "b_in_a")):
         # ---------------- boolean subgraph tests (attribute equality; no hcount rule there)
